@@ -4,9 +4,9 @@ layout_checks feature; the crate compares the StableAbi layout descriptions with
 compare_layouts and prints the verdicts.   render_layoutchk.py <lchk.jsonl> <out_dir>"""
 import json, os, sys
 
-RECV = {"ref": "&self", "mut": "&mut self"}
-RET = {"i64": "i64", "u64": "u64", "u32": "u32", "res": "Result<u64, ()>"}
-DFLT = {"i64": "0", "u64": "0", "u32": "0", "res": "Ok(0)"}
+RECV = {"ref": "&self", "mut": "&mut self", "own": "self"}
+RET = {"i64": "i64", "u64": "u64", "u32": "u32", "u8": "u8", "res": "Result<u64, ()>"}
+DFLT = {"i64": "0", "u64": "0", "u32": "0", "u8": "0", "res": "Ok(0)"}
 
 
 def trait_src(d):
